@@ -208,15 +208,30 @@ def transform_expression(
 
     # Extract the left part of the inequality
     symbolic_vars = {**symbols_to_use} if symbols_to_use else {}
-    for var in pddl_variables:
+    for var in sorted(pddl_variables):
         if var not in symbolic_vars:
-            symbolic_vars[var] = symbols(re.sub(r"[\(\-\)\s\?]", "", var))
+            symbol_name = re.sub(r"[\(\-\)\s\?]", "", var)
+            used_names = {str(symbol) for symbol in symbolic_vars.values()}
+            while symbol_name in used_names:
+                # two different fluents, e.g. (f-x ?a) and (fx ?a), must not share a symbol.
+                symbol_name += "_"
+
+            symbolic_vars[var] = symbols(symbol_name)
 
     formatted_expression = expression
     for var, sym in symbolic_vars.items():
         formatted_expression = formatted_expression.replace(var, str(sym))
 
     return formatted_expression, symbolic_vars
+
+
+def _symbols_namespace(symbolic_vars: Optional[Dict[str, Symbol]]) -> Dict[str, Symbol]:
+    """The names of the fluents' symbols, so that a fluent called e.g. pi or fu is not taken for a sympy object.
+
+    :param symbolic_vars: the map between the PDDL fluents and their symbols.
+    :return: the mapping between the symbols' names and the symbols.
+    """
+    return {str(symbol): symbol for symbol in (symbolic_vars or {}).values()}
 
 
 def simplify_complex_numeric_expression(
@@ -231,7 +246,9 @@ def simplify_complex_numeric_expression(
     :return: the simplified expression in PDDL format.
     """
     left_part_str, symbolic_vars = transform_expression(complex_numeric_expression)
-    left_part_expr = parse_expr(left_part_str)
+    left_part_expr = parse_expr(
+        left_part_str, local_dict=_symbols_namespace(symbolic_vars)
+    )
     simplified_expression = simplify(left_part_expr)
     return convert_expr_to_pddl(
         simplified_expression, symbolic_vars, decimal_digits=decimal_digits
@@ -252,8 +269,16 @@ def simplify_equality(
     transformed_right_expr, symbolic_vars = transform_expression(
         right_expr, symbolic_vars
     )
-    transformed_left_expr = parse_expr(transformed_left_expr, evaluate=False)
-    transformed_right_expr = parse_expr(transformed_right_expr, evaluate=False)
+    transformed_left_expr = parse_expr(
+        transformed_left_expr,
+        local_dict=_symbols_namespace(symbolic_vars),
+        evaluate=False,
+    )
+    transformed_right_expr = parse_expr(
+        transformed_right_expr,
+        local_dict=_symbols_namespace(symbolic_vars),
+        evaluate=False,
+    )
     equation = Eq(transformed_left_expr, transformed_right_expr)
     simplified_equation = simplify(equation)
 
@@ -297,8 +322,16 @@ def simplify_inequality(
     transformed_right_str, symbolic_vars = transform_expression(
         right_side_expression, symbolic_vars
     )
-    left_expr = parse_expr(transformed_left_str, evaluate=False)
-    right_expr = parse_expr(transformed_right_str, evaluate=False)
+    left_expr = parse_expr(
+        transformed_left_str,
+        local_dict=_symbols_namespace(symbolic_vars),
+        evaluate=False,
+    )
+    right_expr = parse_expr(
+        transformed_right_str,
+        local_dict=_symbols_namespace(symbolic_vars),
+        evaluate=False,
+    )
 
     for assumption_str in assumptions:
         # Parse the strings as sympy expressions
@@ -306,8 +339,8 @@ def simplify_inequality(
             assumption_str, symbolic_vars
         )
         lhs, rhs = assumption_expression.split("=")
-        lhs = simplify(sympify(lhs))
-        rhs = simplify(sympify(rhs))
+        lhs = simplify(sympify(lhs, locals=_symbols_namespace(symbolic_vars)))
+        rhs = simplify(sympify(rhs, locals=_symbols_namespace(symbolic_vars)))
         assumption = simplify(Eq(lhs, rhs))
         left_expr = left_expr.subs(assumption.lhs, assumption.rhs)
         right_expr = right_expr.subs(assumption.lhs, assumption.rhs)
